@@ -16,7 +16,7 @@ THEOREMS = ["Gozod.C10." + t for t in [
     "c10_abort_stops_all", "c10_legacy_runOn_issues", "c10_legacy_first_pass_witness",
     "firstPassC_cooked", "firstPassC_vacFree", "runFrom_issues_ne_nil", "firstPassC_of_ok", "c10_container_all",
     "c10_container_ok_iff", "c10_container_abort", "c10_legacy_container_partial", "c10_legacy_container_witness",
-    "parsePipelineK_erase"]]
+    "parsePipelineK_erase", "parsePipelineT_typed", "c10_pipeT_ok_iff", "c10_base_type_error"]]
 
 def key(op, impl, M, S):
     how = C.op_comment(op)
